@@ -99,7 +99,7 @@ Record bnote := BN { bn_stem : string; bn_key : string; bn_meta : option string;
 
 Definition before_notes (c : rcase) : list bnote :=
   flat_map (fun n => match ni_blocks n with
-                     | Ok bs => [BN (ni_name n) (key_from_file_name (ni_name n)) (ni_meta n) bs
+                     | Ok bs => [BN (ni_name n) (key_name (ni_name n)) (ni_meta n) bs
                                     (match alookup (ni_name n) (rc_texts c) with Some t => t | None => "" end)]
                      | Panic _ => []
                      end) (lc_notes (rc_lib c)).
@@ -194,7 +194,7 @@ Section Attempt.
     match at_result a with Ok (REdits (_ :: _)) => false | Panic _ => false | _ => unchanged end.
 
   Definition find_after (A : list after_note) (key : string) : option after_note :=
-    find (fun n => String.eqb (key_from_file_name (fst (fst n))) key) A.
+    find (fun n => String.eqb (key_name (fst (fst n))) key) A.
 
   Definition title_norm (key : string) : option string :=
     match title_of (rc_lib c) key with Some t => Some (norm_text t) | None => None end.
@@ -278,8 +278,8 @@ Section Attempt.
           forallb (fun b => if String.eqb (bn_key b) k then true
                             else existsb (fun n => String.eqb (fst (fst n)) (bn_stem b)) A) B &&
           Nat.eqb (length A) (length B) &&
-          Nat.eqb (length (filter (fun n => String.eqb (key_from_file_name (fst (fst n))) newk) A)) 1 in
-        let gone := negb (existsb (fun n => String.eqb (key_from_file_name (fst (fst n))) k) A) in
+          Nat.eqb (length (filter (fun n => String.eqb (key_name (fst (fst n))) newk) A)) 1 in
+        let gone := negb (existsb (fun n => String.eqb (key_name (fst (fst n))) k) A) in
         let pairs :=      (* before note, its key after, its note after, that note re-read *)
           flat_map (fun b =>
             let key' := if String.eqb (bn_key b) k then newk else bn_key b in
